@@ -17,4 +17,36 @@ def gen_c16_reserved():
          'Definition meta_reserved_names : list str :=\n  [' + '; '.join(blit(n) for n in names) + '].\n')
 
 
-GENERATORS = [gen_c16_reserved]
+# the operator semantics the model knows, by number (C16_Model.fop_of_code); written with plain Python operators
+_REF = [lambda a, v: a < v, lambda a, v: a <= v, lambda a, v: a == v, lambda a, v: a != v, lambda a, v: a >= v, lambda a, v: a > v,
+        lambda a, v: a in v, lambda a, v: a.lower() in v, lambda a, v: a.lower() == v, lambda a, v: v in a]
+_NAMES = ['max', 'min', 'in', 'lowerin', 'lowereq', 'lt', 'le', 'eq', 'ne', 'ge', 'gt', 'contains']
+
+
+def gen_c16_ops():
+    """Which of the model's operator semantics does cane._filter give each documented operator name?  The table of aliases is a
+    local of _filter (or wherever a refactoring puts it), so it is recovered by probing: every name is run on a battery of
+    (element value, condition value) pairs and must behave exactly like ONE of the ten reference semantics."""
+    import types
+    from sugar.core.cane import _filter
+    A = [None, 0, 1, 2, 'a', 'ab', 'AB', 'Ab', '', 'b']
+    V = [None, 1, 2, 'a', 'ab', 'xabx', 'xABx', 'AB', '', ['a', 1, None], [], ('ab',), ['AB'], (0, 2)]
+
+    def run(f):
+        try:
+            return bool(f())
+        except Exception:
+            return 'E'
+    refs = [[run(lambda: r(a, v)) for a in A for v in V] for r in _REF]
+    need(len(set(map(str, refs))) == len(refs), 'the battery does not separate the reference semantics')
+    rows = []
+    for name in _NAMES:
+        obs = [run(lambda: len(_filter([types.SimpleNamespace(x=a)], attr=None, **{'x_' + name: v})) == 1) for a in A for v in V]
+        codes = [i for i, r in enumerate(refs) if r == obs]
+        need(len(codes) == 1, 'filter operator %r behaves like none of the documented operators' % name)
+        rows.append('(%s, %d%%N)' % (blit(name), codes[0]))
+    emit('G_c16_ops', 'probing sugar.core.cane._filter with every documented operator name',
+         'Definition filter_op_codes : list (str * N) :=\n  [' + '; '.join(rows) + '].\n')
+
+
+GENERATORS = [gen_c16_reserved, gen_c16_ops]
